@@ -72,6 +72,10 @@ type OpInfo struct {
 	Xattrs map[string][]byte
 	Body   []byte
 	Tomb   bool
+	// Value is the value handed to a plain KV write (Set, SetRaw, Add, AddRaw, WriteCas).
+	Value any
+	// Result carries the primitive's own result where an oracle needs it (Incr: new counter value; Add/AddRaw: added).
+	Result any
 }
 
 func NewNode(sim *verifsim.Sim, name string) *Node {
@@ -277,6 +281,28 @@ func (ds *DataStore) post(op, key string, kind opKind, alt string, idx int, err 
 	return err
 }
 
+// postV is post for plain KV writes: it additionally reports the value written and the result.
+func (ds *DataStore) postV(op, key string, kind opKind, alt string, idx int, err error, value any, result any) error {
+	n := ds.node
+	switch alt {
+	case AltTimeoutApplied:
+		err = base.ErrTimeout
+	case AltCrashAfter:
+		n.Crash()
+		err = ErrNodeDown
+	}
+	if n.Observe != nil {
+		name := ""
+		if s := verifsim.Current(); s != nil {
+			if t := s.CurrentTask(); t != nil {
+				name = t.Name
+			}
+		}
+		n.Observe(OpInfo{Task: name, Op: op, Key: key, Class: KeyClass(key), Alt: alt, Err: err, Write: kind != opRead, Idx: idx, Value: value, Result: result})
+	}
+	return err
+}
+
 // postX is post for xattr writes: it additionally reports what was written.
 func (ds *DataStore) postX(op, key string, kind opKind, alt string, idx int, err error, body []byte, xattrs map[string][]byte, tomb bool) error {
 	n := ds.node
@@ -297,6 +323,30 @@ func (ds *DataStore) postX(op, key string, kind opKind, alt string, idx int, err
 		n.Observe(OpInfo{Task: name, Op: op, Key: key, Class: KeyClass(key), Alt: alt, Err: err, Write: true, Idx: idx, Xattrs: xattrs, Body: body, Tomb: tomb})
 	}
 	return err
+}
+
+// failX / failV report a not-applied xattr / KV write together with what it tried to write.
+func (ds *DataStore) failX(op, key string, kind opKind, alt string, idx int, err error, body []byte, xattrs map[string][]byte, tomb bool) error {
+	if ds.node.Observe != nil {
+		ds.node.Observe(OpInfo{Task: ds.taskName(), Op: op, Key: key, Class: KeyClass(key), Alt: alt, Err: err, Write: true, Idx: idx, Xattrs: xattrs, Body: body, Tomb: tomb})
+	}
+	return err
+}
+
+func (ds *DataStore) failV(op, key string, kind opKind, alt string, idx int, err error, value any) error {
+	if ds.node.Observe != nil {
+		ds.node.Observe(OpInfo{Task: ds.taskName(), Op: op, Key: key, Class: KeyClass(key), Alt: alt, Err: err, Write: kind != opRead, Idx: idx, Value: value})
+	}
+	return err
+}
+
+func (ds *DataStore) taskName() string {
+	if s := verifsim.Current(); s != nil {
+		if t := s.CurrentTask(); t != nil {
+			return t.Name
+		}
+	}
+	return ""
 }
 
 func (ds *DataStore) fail(op, key string, kind opKind, alt string, idx int, err error) error {
@@ -404,10 +454,10 @@ func (ds *DataStore) Touch(ctx context.Context, k string, exp uint32) (uint64, e
 func (ds *DataStore) Add(ctx context.Context, k string, exp uint32, v any) (bool, error) {
 	alt, idx, ferr := ds.pre("Add", k, opWrite)
 	if ferr != nil {
-		return false, ds.fail("Add", k, opWrite, alt, idx, ferr)
+		return false, ds.failV("Add", k, opWrite, alt, idx, ferr, v)
 	}
 	added, err := ds.DataStore.Add(ctx, k, exp, v)
-	err = ds.post("Add", k, opWrite, alt, idx, err)
+	err = ds.postV("Add", k, opWrite, alt, idx, err, v, added)
 	if err != nil {
 		return false, err
 	}
@@ -417,10 +467,10 @@ func (ds *DataStore) Add(ctx context.Context, k string, exp uint32, v any) (bool
 func (ds *DataStore) AddRaw(ctx context.Context, k string, exp uint32, v []byte) (bool, error) {
 	alt, idx, ferr := ds.pre("AddRaw", k, opWrite)
 	if ferr != nil {
-		return false, ds.fail("AddRaw", k, opWrite, alt, idx, ferr)
+		return false, ds.failV("AddRaw", k, opWrite, alt, idx, ferr, v)
 	}
 	added, err := ds.DataStore.AddRaw(ctx, k, exp, v)
-	err = ds.post("AddRaw", k, opWrite, alt, idx, err)
+	err = ds.postV("AddRaw", k, opWrite, alt, idx, err, v, added)
 	if err != nil {
 		return false, err
 	}
@@ -430,28 +480,28 @@ func (ds *DataStore) AddRaw(ctx context.Context, k string, exp uint32, v []byte)
 func (ds *DataStore) Set(ctx context.Context, k string, exp uint32, opts *sgbucket.UpsertOptions, v any) error {
 	alt, idx, ferr := ds.pre("Set", k, opWrite)
 	if ferr != nil {
-		return ds.fail("Set", k, opWrite, alt, idx, ferr)
+		return ds.failV("Set", k, opWrite, alt, idx, ferr, v)
 	}
 	err := ds.DataStore.Set(ctx, k, exp, opts, v)
-	return ds.post("Set", k, opWrite, alt, idx, err)
+	return ds.postV("Set", k, opWrite, alt, idx, err, v, nil)
 }
 
 func (ds *DataStore) SetRaw(ctx context.Context, k string, exp uint32, opts *sgbucket.UpsertOptions, v []byte) error {
 	alt, idx, ferr := ds.pre("SetRaw", k, opWrite)
 	if ferr != nil {
-		return ds.fail("SetRaw", k, opWrite, alt, idx, ferr)
+		return ds.failV("SetRaw", k, opWrite, alt, idx, ferr, v)
 	}
 	err := ds.DataStore.SetRaw(ctx, k, exp, opts, v)
-	return ds.post("SetRaw", k, opWrite, alt, idx, err)
+	return ds.postV("SetRaw", k, opWrite, alt, idx, err, v, nil)
 }
 
 func (ds *DataStore) WriteCas(ctx context.Context, k string, exp uint32, cas uint64, v any, opt sgbucket.WriteOptions) (uint64, error) {
 	alt, idx, ferr := ds.pre("WriteCas", k, opCasWrite)
 	if ferr != nil {
-		return 0, ds.fail("WriteCas", k, opCasWrite, alt, idx, ferr)
+		return 0, ds.failV("WriteCas", k, opCasWrite, alt, idx, ferr, v)
 	}
 	casOut, err := ds.DataStore.WriteCas(ctx, k, exp, cas, v, opt)
-	err = ds.post("WriteCas", k, opCasWrite, alt, idx, err)
+	err = ds.postV("WriteCas", k, opCasWrite, alt, idx, err, v, nil)
 	if err != nil {
 		return 0, err
 	}
@@ -490,7 +540,7 @@ func (ds *DataStore) Incr(ctx context.Context, k string, amt, def uint64, exp ui
 		return 0, ds.fail("Incr", k, kind, alt, idx, ferr)
 	}
 	v, err := ds.DataStore.Incr(ctx, k, amt, def, exp)
-	err = ds.post("Incr", k, kind, alt, idx, err)
+	err = ds.postV("Incr", k, kind, alt, idx, err, amt, v)
 	if err != nil {
 		return 0, err
 	}
@@ -563,7 +613,7 @@ func (ds *DataStore) WriteSubDoc(ctx context.Context, k string, subdocPath strin
 func (ds *DataStore) WriteWithXattrs(ctx context.Context, k string, exp uint32, cas uint64, value []byte, xattrsValues map[string][]byte, xattrsToDelete []string, opts *sgbucket.MutateInOptions) (uint64, error) {
 	alt, idx, ferr := ds.pre("WriteWithXattrs", k, opCasWrite)
 	if ferr != nil {
-		return 0, ds.fail("WriteWithXattrs", k, opCasWrite, alt, idx, ferr)
+		return 0, ds.failX("WriteWithXattrs", k, opCasWrite, alt, idx, ferr, value, xattrsValues, false)
 	}
 	casOut, err := ds.DataStore.WriteWithXattrs(ctx, k, exp, cas, value, xattrsValues, xattrsToDelete, opts)
 	if err == nil {
@@ -580,7 +630,7 @@ func (ds *DataStore) WriteWithXattrs(ctx context.Context, k string, exp uint32, 
 func (ds *DataStore) WriteTombstoneWithXattrs(ctx context.Context, k string, exp uint32, cas uint64, xattrValue map[string][]byte, xattrsToDelete []string, deleteBody bool, opts *sgbucket.MutateInOptions) (uint64, error) {
 	alt, idx, ferr := ds.pre("WriteTombstoneWithXattrs", k, opCasWrite)
 	if ferr != nil {
-		return 0, ds.fail("WriteTombstoneWithXattrs", k, opCasWrite, alt, idx, ferr)
+		return 0, ds.failX("WriteTombstoneWithXattrs", k, opCasWrite, alt, idx, ferr, nil, xattrValue, true)
 	}
 	casOut, err := ds.DataStore.WriteTombstoneWithXattrs(ctx, k, exp, cas, xattrValue, xattrsToDelete, deleteBody, opts)
 	if err == nil {
@@ -597,7 +647,7 @@ func (ds *DataStore) WriteTombstoneWithXattrs(ctx context.Context, k string, exp
 func (ds *DataStore) WriteResurrectionWithXattrs(ctx context.Context, k string, exp uint32, body []byte, xattrs map[string][]byte, opts *sgbucket.MutateInOptions) (uint64, error) {
 	alt, idx, ferr := ds.pre("WriteResurrectionWithXattrs", k, opWrite)
 	if ferr != nil {
-		return 0, ds.fail("WriteResurrectionWithXattrs", k, opWrite, alt, idx, ferr)
+		return 0, ds.failX("WriteResurrectionWithXattrs", k, opWrite, alt, idx, ferr, body, xattrs, false)
 	}
 	casOut, err := ds.DataStore.WriteResurrectionWithXattrs(ctx, k, exp, body, xattrs, opts)
 	if err == nil {
@@ -654,7 +704,7 @@ func (ds *DataStore) DeleteWithXattrs(ctx context.Context, k string, xattrKeys [
 func (ds *DataStore) UpdateXattrs(ctx context.Context, k string, exp uint32, cas uint64, xv map[string][]byte, opts *sgbucket.MutateInOptions) (uint64, error) {
 	alt, idx, ferr := ds.pre("UpdateXattrs", k, opCasWrite)
 	if ferr != nil {
-		return 0, ds.fail("UpdateXattrs", k, opCasWrite, alt, idx, ferr)
+		return 0, ds.failX("UpdateXattrs", k, opCasWrite, alt, idx, ferr, nil, xv, false)
 	}
 	casOut, err := ds.DataStore.UpdateXattrs(ctx, k, exp, cas, xv, opts)
 	if err == nil {
